@@ -1,11 +1,303 @@
 /-
-  C15 — property theorems only (placeholder until the refinement proof lands).
--/
-import JSV.Model.Validate
-namespace JSV.C15
-open JSV Go
+  C15 — ApplyDefaults only extends the instance; validateDefaults.
 
-theorem validateFuel_zero (env : VEnv) (stack : List NodeId) (i : GoVal) (s : NodeId) :
-    validateFuel env 0 stack i s = .fuel := rfl
+  Definitions used (JSV/Proofs/Dfl.lean, Dfl2.lean):
+    `Extends a b`  the Spec relation "b extends a": scalars and arrays equal; every member of an object of `a` is found in `b`
+                   under the same key with an extended value (structurally recursive Prop on Json)
+    `ExtP a b`     the positional, stronger form (meaningful without well-formedness): members stay in place, in order, with
+                   extended values; new members are appended
+    `PropsNodup st`  the property names of every schema object are pairwise distinct (keys of a Go map)
+-/
+import JSV.Proofs.Dfl
+import JSV.Proofs.Dfl2
+import JSV.Proofs.DflVal
+import JSV.Props.C01
+namespace JSV.C15
+open JSV Go Json Refine
+
+/-! ## present values untouched, objects only gain keys -/
+
+/-- positional form, no hypothesis on the instance: the members of every object keep their place, order and key and
+    are extended themselves; everything else is unchanged; new members are appended -/
+theorem applyDefaults_extends_pos (env : VEnv) (fuel : Nat) (id : NodeId) (inst out : Json) :
+    Go.applyDefaultsFuel env fuel id inst = .ok out → ExtP inst out :=
+  applyDefaultsFuel_ext env fuel id inst out
+
+/-- **extends**: present values untouched, objects only gain keys -/
+theorem applyDefaults_extends (env : VEnv) (fuel : Nat) (id : NodeId) (inst out : Json) :
+    Go.applyDefaultsFuel env fuel id inst = .ok out → Json.WF inst = true → Extends inst out :=
+  fun h hw => Extends_of_ExtP inst out hw (applyDefaultsFuel_ext env fuel id inst out h)
+
+/-- at the entry point (*Resolved).ApplyDefaults -/
+theorem applyDefaults_extends_root (env : VEnv) (root : NodeId) (inst out : Json) :
+    Go.applyDefaults env root inst = .ok out → Json.WF inst = true → Extends inst out :=
+  applyDefaults_extends env _ root inst out
+
+/-- the key order of an object is kept; new keys come last -/
+theorem applyDefaults_keys (env : VEnv) (fuel : Nat) (id : NodeId) (kvs : List (String × Json)) (out : Json) :
+    Go.applyDefaultsFuel env fuel id (.obj kvs) = .ok out →
+    ∃ kvs' added, out = .obj kvs' ∧ keys kvs' = keys kvs ++ added := by
+  intro h
+  obtain ⟨kvs', rfl, h'⟩ := ExtP_obj.1 (applyDefaultsFuel_ext env fuel id _ _ h)
+  obtain ⟨added, ha⟩ := ExtPObj_keys h'
+  exact ⟨kvs', added, rfl, ha⟩
+
+/-- reading the relation: a member present before is present after, under the same key, extended -/
+theorem extends_lookup (kx ky : List (String × Json)) (k : String) (v : Json) :
+    Extends (.obj kx) (.obj ky) → (k, v) ∈ kx → ∃ v', Json.lookup k ky = some v' ∧ Extends v v' := by
+  intro h hm
+  obtain ⟨ky', he, h'⟩ := Extends_obj.1 h
+  cases he
+  exact ExtendsObj_iff.1 h' k v hm
+
+/-- reading the relation: anything that is not an object is unchanged -/
+theorem extends_nonobject (a b : Json) (h : a.isObj = false) : Extends a b ↔ b = a := Extends_nonobj h
+
+/-! ## required properties are never filled -/
+
+theorem never_fills_required (env : VEnv) (fuel : Nat) (id : NodeId) (n : Node) (p : String)
+    (kvs kvs' : List (String × Json)) :
+    env.st.get? id = some n → p ∈ n.required.getD [] → (Json.lookup p kvs).isNone = true →
+    Go.applyDefaultsFuel env fuel id (.obj kvs) = .ok (.obj kvs') → (Json.lookup p kvs').isNone = true := by
+  intro hn hp hl h
+  cases fuel with
+  | zero => simp [applyDefaultsFuel] at h
+  | succ fuel =>
+    simp only [applyDefaultsFuel, applyDefaultsStep, hn] at h
+    split at h
+    · cases h
+    · obtain ⟨kvs'', hloop, h⟩ := bind_eq_ok.1 h
+      cases h
+      have := defaultsLoop_required env.st _ _ p hp _ _ _ hloop (by simpa using hl)
+      simp [this]
+
+/-! ## non-objects are returned unchanged -/
+
+theorem applyDefaults_nonobject (env : VEnv) (fuel : Nat) (id : NodeId) (n : Node) (i : Info) (inst : Json) :
+    env.st.get? id = some n → env.info? id = some i → inst.isObj = false →
+    Go.applyDefaultsFuel env (fuel + 1) id inst = .ok inst := by
+  intro hn hi ho
+  simp only [applyDefaultsFuel, applyDefaultsStep, hn, hi]
+  cases inst <;> simp_all [isObj]
+
+/-- and whenever the call returns at all on a non-object, it returns the instance -/
+theorem applyDefaults_nonobject' (env : VEnv) (fuel : Nat) (id : NodeId) (inst out : Json) :
+    inst.isObj = false → Go.applyDefaultsFuel env fuel id inst = .ok out → out = inst :=
+  fun ho h => (ExtP_nonobj ho).1 (applyDefaultsFuel_ext env fuel id inst out h)
+
+/-! ## validateDefaults -/
+
+/-- definition level: validateDefaults succeeds iff the root exists with a supported `$schema`, no schema of the tree uses
+    `$dynamicRef`, and every default validates against its own schema -/
+theorem validateDefaults_iff (env : VEnv) (supported : List String) (fuel : Nat) (root : NodeId) :
+    Go.validateDefaults env supported fuel root = .ok () ↔
+      (∃ rn, env.st.get? root = some rn ∧ supported.contains rn.schema = true) ∧
+      (∀ id ∈ allNodes env.st (env.st.size + 2) [root], ∀ n, env.st.get? id = some n → n.dynamicRef = "") ∧
+      (∀ id ∈ allNodes env.st (env.st.size + 2) [root], ∀ n d, env.st.get? id = some n → n.default = some d →
+        (validateFuel env fuel [] (GoVal.ofJson d) id).isOk = true) := by
+  unfold Go.validateDefaults
+  cases hr : env.st.get? root with
+  | none => simp
+  | some rn =>
+    simp only [Option.some.injEq, exists_eq_left']
+    by_cases hs : supported.contains rn.schema = true
+    · simp only [hs, Bool.not_true, Bool.false_eq_true, if_false, true_and]
+      rw [validateDefaultsLoop_iff]
+      constructor
+      · intro h
+        refine ⟨fun id hid n hn => ?_, fun id hid n d hn hd => ?_⟩
+        · obtain ⟨n', hn', h1, _⟩ := h id hid
+          rw [hn] at hn'; cases hn'; exact h1
+        · obtain ⟨n', hn', _, h2⟩ := h id hid
+          rw [hn] at hn'; cases hn'; exact h2 d hd
+      · rintro ⟨h1, h2⟩ id hid
+        have hex := allNodes_exist env.st _ _ id hid
+        cases hn : env.st.get? id with
+        | none => rw [hn] at hex; cases hex
+        | some n => exact ⟨n, rfl, h1 id hid n hn, fun d hd => h2 id hid n d hn hd⟩
+    · have : supported.contains rn.schema = false := by simpa using hs
+      simp only [this, Bool.not_false, if_true]
+      constructor
+      · intro h; cases h
+      · rintro ⟨h, _⟩; cases h
+
+/-- a default validates (evaluator) iff the Spec says it is valid, whenever the Spec decides -/
+theorem default_ok_iff_valid (env : VEnv) (hwf : EnvWF env) (hst : StoreWF env.st) (fuel : Nat) (id : NodeId) (d : Json)
+    (hd : Json.WF d = true) (b : Bool) (hs : Spec.valid (specEnvOf env) fuel id d = some b) :
+    (validateFuel env fuel [] (GoVal.ofJson d) id).isOk = b := by
+  have hrel := C01.validate_refines_spec_root env hwf hst fuel id d hd
+  unfold Spec.valid at hs
+  cases he : Spec.evalFuel (specEnvOf env) fuel [] id d with
+  | none => rw [he] at hs; simp at hs
+  | some r =>
+    rw [he] at hs hrel
+    simp only [Option.map_some, Option.some.injEq] at hs
+    cases r with
+    | none => simp only [Rel] at hrel; rw [hrel]; subst hs; rfl
+    | some ev => obtain ⟨a, ha, _⟩ := hrel; rw [ha]; subst hs; rfl
+
+/-- Spec level: under a well-formed environment, when the defaults are well-formed JSON and the Spec decides each of them,
+    validateDefaults succeeds iff there is no `$dynamicRef` and every default is valid against its schema -/
+theorem validateDefaults_spec (env : VEnv) (hwf : EnvWF env) (hst : StoreWF env.st) (supported : List String) (fuel : Nat)
+    (root : NodeId) (rn : Node) (hroot : env.st.get? root = some rn) (hsup : supported.contains rn.schema = true)
+    (hdec : ∀ id ∈ allNodes env.st (env.st.size + 2) [root], ∀ n d, env.st.get? id = some n → n.default = some d →
+      Json.WF d = true ∧ (Spec.valid (specEnvOf env) fuel id d).isSome = true) :
+    Go.validateDefaults env supported fuel root = .ok () ↔
+      (∀ id ∈ allNodes env.st (env.st.size + 2) [root], ∀ n, env.st.get? id = some n → n.dynamicRef = "") ∧
+      (∀ id ∈ allNodes env.st (env.st.size + 2) [root], ∀ n d, env.st.get? id = some n → n.default = some d →
+        Spec.valid (specEnvOf env) fuel id d = some true) := by
+  rw [validateDefaults_iff]
+  constructor
+  · rintro ⟨_, h1, h2⟩
+    refine ⟨h1, fun id hid n d hn hd => ?_⟩
+    obtain ⟨hw, hs⟩ := hdec id hid n d hn hd
+    cases hv : Spec.valid (specEnvOf env) fuel id d with
+    | none => rw [hv] at hs; cases hs
+    | some b =>
+      have := default_ok_iff_valid env hwf hst fuel id d hw b hv
+      rw [h2 id hid n d hn hd] at this
+      rw [← this]
+  · rintro ⟨h1, h2⟩
+    refine ⟨⟨rn, hroot, hsup⟩, h1, fun id hid n d hn hd => ?_⟩
+    obtain ⟨hw, _⟩ := hdec id hid n d hn hd
+    exact default_ok_iff_valid env hwf hst fuel id d hw true (h2 id hid n d hn hd)
+
+/-! ## hasDefaults (the repaired predicate, D12: defaults on required properties do not count) -/
+
+/-- the predicate unfolds to: a default here, or a NON-REQUIRED property whose schema has defaults -/
+theorem hasDefaults_unfold (st : Store) (id : NodeId) :
+    hasDefaults st id = true →
+    ∃ n, st.get? id = some n ∧ (n.default.isSome = true ∨
+      ∃ p c, (p, c) ∈ n.properties.getD [] ∧ (n.required.getD []).contains p = false ∧ hasDefaults st c = true) :=
+  hasDefaults_cases st id
+
+/-- **sound**: when `hasDefaults sub` holds and `sub` has no default of its own (the situation in which applyDefaults
+    creates `{}` for a missing property and recurses), the recursion returns a NON-EMPTY object: no empty object is ever
+    materialised -/
+theorem hasDefaults_sound (env : VEnv) (fuel : Nat) (sub : NodeId) (sn : Node) (out : Json) :
+    hasDefaults env.st sub = true → env.st.get? sub = some sn → sn.default = none →
+    Go.applyDefaultsFuel env fuel sub (.obj []) = .ok out → ∃ kvs, out = .obj kvs ∧ kvs ≠ [] :=
+  fun hh hsn hd h => applyDefaultsFuel_sound env fuel sub sn out hh hsn hd h
+
+/-! ## what is inserted is declared -/
+
+/-- every key that one applyDefaults call adds to an object is a declared, non-required property of the schema, and its
+    value is either an extension (`ExtP`) of the default declared by that property's schema, or — when that schema has no
+    default but `hasDefaults` — a non-empty object -/
+theorem inserted_is_declared (env : VEnv) (fuel : Nat) (id : NodeId) (n : Node) (kvs : List (String × Json)) (out : Json) :
+    Go.applyDefaultsFuel env fuel id (.obj kvs) = .ok out → env.st.get? id = some n →
+    ∃ kvs', out = .obj kvs' ∧ ∀ k v', Json.lookup k kvs = none → Json.lookup k kvs' = some v' →
+      ∃ sub sn, (k, sub) ∈ n.properties.getD [] ∧ (n.required.getD []).contains k = false ∧ env.st.get? sub = some sn ∧
+        ((∃ d, sn.default = some d ∧ ExtP d v') ∨
+         (sn.default = none ∧ hasDefaults env.st sub = true ∧ ∃ o, v' = .obj o ∧ o ≠ [])) := by
+  intro h hn
+  cases fuel with
+  | zero => simp [applyDefaultsFuel] at h
+  | succ fuel =>
+    simp only [applyDefaultsFuel, applyDefaultsStep, hn] at h
+    split at h
+    · cases h
+    · obtain ⟨kvs', hloop, h⟩ := bind_eq_ok.1 h
+      cases h
+      exact ⟨kvs', rfl, defaultsLoop_inserted env.st _ _ (applyDefaultsFuel_ext env fuel)
+        (applyDefaultsFuel_sound env fuel) _ _ _ hloop⟩
+
+/-! ## idempotence -/
+
+/-- applying twice = applying once: whenever the first application returns (with any fuel: so in particular for
+    tree-shaped / guarded property schemas with enough fuel), the second, with the same fuel, returns its input.
+    `PropsNodup`: property names are distinct within each schema object. -/
+theorem applyDefaults_idem (env : VEnv) (hst : PropsNodup env.st) (fuel : Nat) (id : NodeId) (inst out : Json) :
+    Go.applyDefaultsFuel env fuel id inst = .ok out → Go.applyDefaultsFuel env fuel id out = .ok out :=
+  applyDefaultsFuel_idem env hst fuel id inst out
+
+/-- the same at the entry point (whose fuel depends on the size of the instance) -/
+theorem applyDefaults_idem_root (env : VEnv) (hst : PropsNodup env.st) (root : NodeId) (inst out : Json) :
+    Go.applyDefaults env root inst = .ok out → Go.applyDefaults env root out = .ok out := by
+  intro h
+  unfold Go.applyDefaults at h ⊢
+  have hsz := size_le_of_ExtP _ _ (applyDefaultsFuel_ext env _ root inst out h)
+  exact applyDefaultsFuel_mono_le env _ _ (by omega) root out out (applyDefaultsFuel_idem env hst _ root inst out h)
+
+/-- more fuel never changes a returned result -/
+theorem applyDefaults_fuel_stable (env : VEnv) (f f' : Nat) (hle : f ≤ f') (id : NodeId) (inst out : Json) :
+    Go.applyDefaultsFuel env f id inst = .ok out → Go.applyDefaultsFuel env f' id inst = .ok out :=
+  applyDefaultsFuel_mono_le env f f' hle id inst out
+
+/-! ## the hypotheses are satisfiable: a concrete schema
+
+`{"properties":{"a":{"default":1,"type":"integer"},"b":{"properties":{"c":{"default":"x"}}},"r":{"default":5},
+                "e":{"properties":{"q":{"default":0}},"required":["q"]}},"required":["r"]}` -/
+
+def exStore : Store := #[
+  { properties := some [("a", 1), ("b", 2), ("r", 4), ("e", 5)], required := some ["r"] },
+  { default := some (.num 1), type := "integer" },
+  { properties := some [("c", 3)] },
+  { default := some (.str "x") },
+  { default := some (.num 5) },
+  { properties := some [("q", 6)], required := some ["q"] },
+  { default := some (.num 0) } ]
+
+def exInfos : List (NodeId × Info) :=
+  [(0, { path := "root", base := some 0 }), (1, { path := "/properties/a", base := some 0 }),
+   (2, { path := "/properties/b", base := some 0 }), (3, { path := "/properties/b/properties/c", base := some 0 }),
+   (4, { path := "/properties/r", base := some 0 }), (5, { path := "/properties/e", base := some 0 }),
+   (6, { path := "/properties/e/properties/q", base := some 0 })]
+
+def exEnv : VEnv :=
+  { st := exStore, draft := .d2020, infos := exInfos, reMatch := fun _ _ => false, hash := fun _ => 0 }
+
+theorem exEnv_wf : EnvWF exEnv := EnvWF_of_checks exEnv (by decide) (by decide) (fun _ _ _ => rfl)
+theorem exEnv_store : StoreWF exEnv.st := StoreWF_of_check _ (by decide)
+
+/-- the result check used by the examples (Json has no decidable equality; `eqv` is value equality) -/
+def okEqv (r : Res Json) (expected : Json) : Bool :=
+  match r with
+  | .ok j => Json.eqv j expected && Json.eqv expected j
+  | _ => false
+
+/-- `{}` ↦ `{"a":1,"b":{"c":"x"}}`: the required `r` is not filled, `e` (whose only default sits on a required property)
+    is not materialised as `{}` -/
+example : okEqv (Go.applyDefaults exEnv 0 (.obj [])) (.obj [("a", .num 1), ("b", .obj [("c", .str "x")])]) = true := by
+  decide +kernel
+/-- present values are untouched, new keys come last -/
+example : okEqv (Go.applyDefaults exEnv 0 (.obj [("z", .arr []), ("a", .str "no")]))
+    (.obj [("z", .arr []), ("a", .str "no"), ("b", .obj [("c", .str "x")])]) = true := by decide +kernel
+/-- applying again changes nothing -/
+example : okEqv (Go.applyDefaults exEnv 0 (.obj [("a", .num 1), ("b", .obj [("c", .str "x")])]))
+    (.obj [("a", .num 1), ("b", .obj [("c", .str "x")])]) = true := by decide +kernel
+example : Go.hasDefaults exStore 2 = true ∧ Go.hasDefaults exStore 5 = false ∧ Go.hasDefaults exStore 0 = true := by
+  decide +kernel
+example : Go.validateDefaults exEnv [""] 3 0 = .ok () := by decide +kernel
+example : (Go.applyDefaults exEnv 0 (.num 3)).isOk = true := by decide +kernel
+
+/-- the hypotheses of `validateDefaults_spec` hold on the example: every default is well-formed and decided by the Spec -/
+theorem exEnv_defaults_decided :
+    ∀ id ∈ allNodes exEnv.st (exEnv.st.size + 2) [0], ∀ n d, exEnv.st.get? id = some n → n.default = some d →
+      Json.WF d = true ∧ (Spec.valid (specEnvOf exEnv) 3 id d).isSome = true := by
+  intro id hid n d hn hd
+  have hc : ((allNodes exEnv.st (exEnv.st.size + 2) [0]).all fun id =>
+      match exEnv.st.get? id with
+      | some n => (match n.default with
+        | some d => Json.WF d && (Spec.valid (specEnvOf exEnv) 3 id d).isSome
+        | none => true)
+      | none => true) = true := by decide +kernel
+  have := List.all_eq_true.1 hc id hid
+  rw [hn] at this
+  simp only [hd, Bool.and_eq_true] at this
+  exact this
+
+example : Go.validateDefaults exEnv [""] 3 0 = .ok () ↔
+    (∀ id ∈ allNodes exEnv.st (exEnv.st.size + 2) [0], ∀ n, exEnv.st.get? id = some n → n.dynamicRef = "") ∧
+    (∀ id ∈ allNodes exEnv.st (exEnv.st.size + 2) [0], ∀ n d, exEnv.st.get? id = some n → n.default = some d →
+      Spec.valid (specEnvOf exEnv) 3 id d = some true) :=
+  validateDefaults_spec exEnv exEnv_wf exEnv_store [""] 3 0 _ rfl (by decide) exEnv_defaults_decided
+
+/-- property names are distinct in the example store (hypothesis of `applyDefaults_idem`) -/
+example : PropsNodup exStore := by
+  intro id n hn
+  have hc : (exStore.toList.all fun n => Json.nodupKeys ((n.properties.getD []).map (·.1))) = true := by decide +kernel
+  have hmem : n ∈ exStore.toList := Array.mem_toList_iff.2 (Array.mem_of_getElem? hn)
+  exact Json.nodupKeys_iff.1 (List.all_eq_true.1 hc n hmem)
 
 end JSV.C15
